@@ -8,9 +8,19 @@
 // dim_covariance x dim_covariance.
 // meta sensor=stream (harness sensor serving y + count*dy, counting the freeze calls) | sim (the library's
 // SimulatedLinearSensor over a SimulatedStateModel started at x0).
-// word ops: "<name>:on" | "<name>:off" | "freeze" | "predict" | "correct" | "predict!" | "correct!";
+// word ops: "<name>:on" | "<name>:off" | "freeze" | "predict" | "correct" | "predict!" | "correct!" | "move" | "move=" | "move=!";
+// "move": the subject filter is replaced by a NEW filter whose prediction and correction steps are MOVE-CONSTRUCTED from the
+// steps of the current one (KFPrediction / UKFPrediction / KFCorrection / UKFCorrection / SUKFCorrection / DrawParticles /
+// GPFPrediction / BootstrapCorrection / GPFCorrection (KFCorrection&&) ...), whatever commands and steps they received so far;
+// "move=": the new filter is built with freshly constructed steps onto which the current ones are MOVE-ASSIGNED (the classes
+// that have a move assignment: all but KF/UKF/SUKFCorrection, which are move-constructed); "move=!": the same after the
+// target steps were told to skip everything.  The never-skipped twins are never moved.  Token: moved,P=..,S=..,E=..
 // "freeze" calls freeze_measurements() on the subject's correction step AND on its never-skipped twins; with "!" the output object
 // handed to the step has ANOTHER shape (2 more components, 1 more linear dimension, no circular part) than the input.
+// meta intrude=1: an independent filter object of the same configuration (the "intruder") receives OTHER skip commands (a fixed
+// cycle over all names, on and off) and a predict + correct on beliefs of its own before every operation of the word, between
+// the subject's and the twins' calls, and inside every callback of the models (state / exogenous / measurement) of the subject and of
+// the twins (vf::intrude, recursion cut at depth one).  Flags live in the objects: nothing observed may change.
 // The commands go through GaussianFilter::skip / ParticleFilter::skip (a GaussianFilter subclass, an
 // SIS subclass; the filtering thread is never started); predict / correct are called on the filter's
 // own prediction and correction steps with fresh random beliefs.  Per operation one token is printed:
@@ -51,7 +61,7 @@ using namespace Eigen;
 struct AffineExo : public ExogenousModel {
     MatrixXd B_, c_;
     AffineExo(const MatrixXd& B, const MatrixXd& c) : B_(B), c_(c) {}
-    void propagate(const Ref<const MatrixXd>& cur, Ref<MatrixXd> prop) override { prop = B_ * cur + c_.replicate(1, cur.cols()); }
+    void propagate(const Ref<const MatrixXd>& cur, Ref<MatrixXd> prop) override { vf::intrude(); prop = B_ * cur + c_.replicate(1, cur.cols()); }
     bool setProperty(const std::string&) override { return false; }
     VectorDescription getStateDescription() const override { return VectorDescription(B_.rows()); }
 };
@@ -75,18 +85,20 @@ static Layout layout_of(const vf::Case& c) {
 struct TState : public LinearStateModel {
     MatrixXd F_, Q_, noise_; Layout l_;
     TState(const MatrixXd& F, const MatrixXd& Q, const MatrixXd& noise, const Layout& l) : F_(F), Q_(Q), noise_(noise), l_(l) {}
-    MatrixXd getStateTransitionMatrix() override { return F_; }
-    MatrixXd getNoiseCovarianceMatrix() override { return Q_; }
-    MatrixXd getJacobian() override { return F_; }
+    MatrixXd getStateTransitionMatrix() override { vf::intrude(); return F_; }
+    MatrixXd getNoiseCovarianceMatrix() override { vf::intrude(); return Q_; }
+    MatrixXd getJacobian() override { vf::intrude(); return F_; }
     bool setProperty(const std::string&) override { return false; }
     VectorDescription getStateDescription() override { return l_.desc(); }
     MatrixXd getNoiseSample(const std::size_t num) override {
+        vf::intrude();
         MatrixXd r(F_.rows(), num);
         for (std::size_t j = 0; j < num; j++) r.col(j) = noise_ * (1.0 + 0.25 * static_cast<double>(j));
         return r;
     }
     VectorXd getTransitionProbability(const Ref<const MatrixXd>& prev, const Ref<const MatrixXd>& cur) override {
-        MatrixXd d = cur - getStateTransitionMatrix() * prev;
+        vf::intrude();
+        MatrixXd d = cur - F_ * prev;
         VectorXd p(cur.cols());
         for (long j = 0; j < cur.cols(); j++) p(j) = 0.1 + 0.3 * std::exp(-0.5 * d.col(j).squaredNorm());
         return p;
@@ -98,6 +110,7 @@ struct TState : public LinearStateModel {
 struct GenState : public TState {
     using TState::TState;
     void motion(const Ref<const MatrixXd>& cur, Ref<MatrixXd> mot) override {
+        vf::intrude();
         const long d = F_.rows();
         MatrixXd x = cur.topRows(d);
         MatrixXd out(d, cur.cols()); out.setConstant(-11.5);
@@ -115,13 +128,22 @@ struct TMeas : public LTIMeasurementModel {
     TMeas(const MatrixXd& H, const MatrixXd& R, const MatrixXd& y, const Layout& l) : LTIMeasurementModel(H, R), y0_(y), cur_(y), l_(l) {
         dy_ = (y.array() * 0.25 + 0.5).matrix();
     }
-    bool freeze(const Data&) override { ++count_; cur_ = y0_ + dy_ * static_cast<double>(count_); return true; }
-    std::pair<bool, Data> measure(const Data&) const override { return std::make_pair(true, Data(cur_)); }
+    bool freeze(const Data&) override { vf::intrude(); ++count_; cur_ = y0_ + dy_ * static_cast<double>(count_); return true; }
+    std::pair<bool, Data> measure(const Data&) const override { vf::intrude(); return std::make_pair(true, Data(cur_)); }
     VectorDescription getInputDescription() const override { return l_.desc(); }
     VectorDescription getMeasurementDescription() const override { return VectorDescription(H_.rows()); }
 };
 
 struct NoInit : public ParticleSetInitialization { bool initialize(ParticleSet&) override { return true; } };
+
+// meta direct=1 (stand-alone use of the steps): the commands are given to the step objects themselves, Prediction::skip(name, status)
+// and Correction::skip(status), as a user holding the steps without a filter does ('all' = both, as the words of the property say)
+template <typename P, typename C> static bool direct_skip(P& p, C& c, const std::string& w, bool s) {
+    if (w == "prediction" || w == "state" || w == "exogenous") return p.skip(w, s);
+    if (w == "correction") return c.skip(s);
+    if (w == "all") { bool r = p.skip("prediction", s); r = c.skip(s) && r; return r; }
+    return false;
+}
 
 struct GF : public GaussianFilter {
     GF(std::unique_ptr<GaussianPrediction> p, std::unique_ptr<GaussianCorrection> c) : GaussianFilter(std::move(p), std::move(c)) {}
@@ -130,6 +152,7 @@ struct GF : public GaussianFilter {
     bool run_condition() override { return false; }
     GaussianPrediction& P() { return prediction(); }
     GaussianCorrection& C() { return correction(); }
+    bool skip_steps(const std::string& w, bool s) { return direct_skip(P(), C(), w, s); }
 };
 
 struct PF : public SIS {
@@ -138,7 +161,57 @@ struct PF : public SIS {
     bool run_condition() override { return false; }
     PFPrediction& P() { return prediction(); }
     PFCorrection& C() { return correction(); }
+    bool skip_steps(const std::string& w, bool s) { return direct_skip(P(), C(), w, s); }
 };
+
+// ---- object lifetimes: step objects obtained by move construction / move assignment ----
+template <typename T, typename Base> static bool move_ctor(Base& b, std::unique_ptr<Base>& out, const char* what) {
+    T* p = dynamic_cast<T*>(&b);
+    if (!p) return false;
+    vf::Entry e(what);
+    out.reset(new T(std::move(*p)));
+    return true;
+}
+template <typename T, typename Base> static bool move_assign(Base& src, Base& dst, const char* what) {
+    T* s = dynamic_cast<T*>(&src); T* d = dynamic_cast<T*>(&dst);
+    if (!s || !d) return false;
+    vf::Entry e(what);
+    *d = std::move(*s);
+    return true;
+}
+static std::unique_ptr<GaussianPrediction> moved(GaussianPrediction& b) {
+    std::unique_ptr<GaussianPrediction> o;
+    if (move_ctor<KFPrediction>(b, o, "KFPrediction(KFPrediction&&)") || move_ctor<UKFPrediction>(b, o, "UKFPrediction(UKFPrediction&&)")) return o;
+    throw std::runtime_error("harness: unknown Gaussian prediction class");
+}
+static std::unique_ptr<GaussianCorrection> moved(GaussianCorrection& b) {
+    std::unique_ptr<GaussianCorrection> o;
+    if (move_ctor<KFCorrection>(b, o, "KFCorrection(KFCorrection&&)") || move_ctor<UKFCorrection>(b, o, "UKFCorrection(UKFCorrection&&)")
+        || move_ctor<SUKFCorrection>(b, o, "SUKFCorrection(SUKFCorrection&&)")) return o;
+    throw std::runtime_error("harness: unknown Gaussian correction class");
+}
+static std::unique_ptr<PFPrediction> moved(PFPrediction& b) {
+    std::unique_ptr<PFPrediction> o;
+    if (move_ctor<DrawParticles>(b, o, "DrawParticles(DrawParticles&&)") || move_ctor<GPFPrediction>(b, o, "GPFPrediction(GPFPrediction&&)")) return o;
+    throw std::runtime_error("harness: unknown particle prediction class");
+}
+static std::unique_ptr<PFCorrection> moved(PFCorrection& b) {
+    std::unique_ptr<PFCorrection> o;
+    if (move_ctor<BootstrapCorrection>(b, o, "BootstrapCorrection(BootstrapCorrection&&)") || move_ctor<GPFCorrection>(b, o, "GPFCorrection(GPFCorrection&&)")) return o;
+    throw std::runtime_error("harness: unknown particle correction class");
+}
+static void assign(GaussianPrediction& src, GaussianPrediction& dst) {
+    if (move_assign<KFPrediction>(src, dst, "KFPrediction::operator=(KFPrediction&&)") || move_assign<UKFPrediction>(src, dst, "UKFPrediction::operator=(UKFPrediction&&)")) return;
+    throw std::runtime_error("harness: Gaussian prediction classes differ");
+}
+static void assign(PFPrediction& src, PFPrediction& dst) {
+    if (move_assign<DrawParticles>(src, dst, "DrawParticles::operator=(DrawParticles&&)") || move_assign<GPFPrediction>(src, dst, "GPFPrediction::operator=(GPFPrediction&&)")) return;
+    throw std::runtime_error("harness: particle prediction classes differ");
+}
+static void assign(PFCorrection& src, PFCorrection& dst) {
+    if (move_assign<BootstrapCorrection>(src, dst, "BootstrapCorrection::operator=(BootstrapCorrection&&)") || move_assign<GPFCorrection>(src, dst, "GPFCorrection::operator=(GPFCorrection&&)")) return;
+    throw std::runtime_error("harness: particle correction classes differ");
+}
 
 struct Setup {
     const vf::Case& c;
@@ -172,6 +245,23 @@ struct Setup {
         return std::unique_ptr<GaussianCorrection>(new UKFCorrection(meas<AdditiveMeasurementModel>(), 1.0, 2.0, 0.0));
     }
     std::unique_ptr<GF> gaussian(const std::string& k) const { return std::unique_ptr<GF>(new GF(gpred(k), gcorr(k))); }
+    // mode 0: move construction; 1: move assignment onto freshly constructed steps; 2: onto steps told to skip everything
+    std::unique_ptr<GF> regaussian(GF& old, const std::string& k, int mode) const {
+        std::unique_ptr<GaussianCorrection> nc = moved(old.C());        // the Gaussian corrections have a move constructor only
+        if (mode == 0) return std::unique_ptr<GF>(new GF(moved(old.P()), std::move(nc)));
+        std::unique_ptr<GaussianPrediction> np = gpred(k);
+        if (mode == 2) np->skip("prediction", true);
+        assign(old.P(), *np);
+        return std::unique_ptr<GF>(new GF(std::move(np), std::move(nc)));
+    }
+    std::unique_ptr<PF> reparticle(PF& old, const std::string& k, unsigned np, int mode) const {
+        if (mode == 0) return std::unique_ptr<PF>(new PF(np, l, moved(old.P()), moved(old.C())));
+        std::unique_ptr<PF> nf = particle(k, np);
+        if (mode == 2) nf->skip("all", true);
+        assign(old.P(), nf->P());
+        assign(old.C(), nf->C());
+        return nf;
+    }
     std::unique_ptr<PF> particle(const std::string& k, unsigned np) const {
         if (k == "boot2") {
             // the exogenous model goes to DrawParticles' own constructor, the state model gets none
@@ -243,17 +333,38 @@ static bool exo_only_match(const vf::Case& c, const ParticleSet& in, const Parti
 static bool exo_only_match(const vf::Case&, const GaussianMixture&, const GaussianMixture&) { return false; }
 
 // runs one word of operations on a fresh subject filter (and fresh never-skipped twins); returns the trace
-template <typename Filter, typename Belief, typename Make>
-static std::vector<std::string> run_word(const vf::Case& c, Make make, bool exo, const std::string& cfg,
+template <typename Filter, typename Belief, typename Make, typename Remake>
+static std::vector<std::string> run_word(const vf::Case& c, Make make, Remake remake, bool exo, const std::string& cfg,
                                          const std::vector<std::string>& ops, unsigned long seed, bool& inputs_kept) {
     const Layout l = layout_of(c); const long n = l.dim(); const long np = c.mi("np", 3);
     std::unique_ptr<Filter> subp = make(exo), twinp = make(exo), t0p;
     if (exo) t0p = make(false);
-    Filter& sub = *subp; Filter& twin = *twinp; Filter* twin_noexo = t0p.get();
+    Filter& twin = *twinp; Filter* twin_noexo = t0p.get();      // the subject is *subp: a move replaces it
     Rng rng(seed);
+    const bool direct = c.mi("direct", 0) != 0;
     std::vector<std::string> trace;
-    StateModel& sm = sub.P().getStateModel();
+    // the intruder: another filter of the same configuration with commands, measurements and beliefs of its own
+    struct Clear { ~Clear() { vf::clear_intruder(); } } clear_at_exit;
+    std::unique_ptr<Filter> intrp;
+    std::shared_ptr<Rng> irng(new Rng(seed ^ 0x9e3779b97f4a7c15ul));
+    std::shared_ptr<long> icount(new long(0));
+    if (c.mi("intrude", 0) != 0) {
+        intrp = make(exo);
+        Filter* intr = intrp.get();
+        vf::set_intruder([intr, irng, icount, l, np]() {
+            static const char* names[10] = {"all", "state", "correction", "exogenous", "prediction", "all", "state", "exogenous", "correction", "prediction"};
+            static const bool status[10] = {true, false, false, false, true, false, true, true, true, false};
+            const long k = (*icount)++;
+            try { intr->skip(names[k % 10], status[k % 10]); } catch (const std::exception&) {}
+            if (k == 0) intr->C().freeze_measurements();     // once: the simulated trajectory behind the library's sensor is finite
+            Belief in(np, l.lin, l.circ, l.quat); fill(in, *irng);
+            Belief mid(np, l.lin, l.circ, l.quat), out(np, l.lin, l.circ, l.quat); junk(mid); junk(out);
+            intr->P().predict(in, mid);
+            if (!l.quat) intr->C().correct(in, out);        // UKFCorrection on a quaternion state: open finding of C14, not exercised
+        });
+    }
     auto flags = [&]() {
+        Filter& sub = *subp; StateModel& sm = sub.P().getStateModel();
         std::string s = std::string("P=") + (sub.P().is_skipping() ? "1" : "0") + ",S=" + (sm.is_skipping() ? "1" : "0") + ",E=";
         s += sm.have_exogenous_model() ? (sm.exogenous_model().is_skipping() ? "1" : "0") : "-";
         return s;
@@ -262,14 +373,22 @@ static std::vector<std::string> run_word(const vf::Case& c, Make make, bool exo,
     // the measurement the correction would use now: the subject's against the never-skipped twin's
     auto same_measurement = [&]() {
         bool v1, v2; Data d1, d2;
-        std::tie(v1, d1) = sub.C().getMeasurementModel().measure();
+        std::tie(v1, d1) = subp->C().getMeasurementModel().measure();
         std::tie(v2, d2) = twin.C().getMeasurementModel().measure();
         if (!v1 || !v2) return v1 == v2;
         return vf::bit_equal(any::any_cast<MatrixXd>(d1), any::any_cast<MatrixXd>(d2));
     };
     for (const std::string& op0 : ops) {
+        vf::intrude();
         const bool other_shape = !op0.empty() && op0[op0.size() - 1] == '!';
         const std::string op = other_shape ? op0.substr(0, op0.size() - 1) : op0;
+        if (op0 == "move" || op0 == "move=" || op0 == "move=!") {
+            std::unique_ptr<Filter> nf = remake(*subp, op0 == "move" ? 0 : (op0 == "move=" ? 1 : 2));
+            subp = std::move(nf);          // the filter holding the moved-from steps is destroyed
+            trace.push_back("moved," + flags());
+            continue;
+        }
+        Filter& sub = *subp;
         if (op == "predict" || op == "correct") {
             Belief in(np, l.lin, l.circ, l.quat); fill(in, rng);
             Belief in_copy(in);
@@ -312,7 +431,10 @@ static std::vector<std::string> run_word(const vf::Case& c, Make make, bool exo,
             auto p = op.find(':');
             const std::string name = op.substr(0, p); const bool status = op.substr(p + 1) == "on";
             std::string r;
-            try { vf::Entry e("Filter::skip"); r = sub.skip(name, status) ? "true" : "false"; }
+            try {
+                if (direct) { vf::Entry e("Prediction::skip / Correction::skip"); r = sub.skip_steps(name, status) ? "true" : "false"; }
+                else { vf::Entry e("Filter::skip"); r = sub.skip(name, status) ? "true" : "false"; }
+            }
             catch (const std::exception& ex) { r = "throw"; }
             trace.push_back("r=" + r + "," + flags());
         }
@@ -325,6 +447,7 @@ static std::string compress(const std::vector<std::string>& trace) {
     std::string rs, fl = trace[0].substr(5);
     for (std::size_t i = 1; i + 2 < trace.size(); i++) {
         const std::string& t = trace[i];
+        if (t.compare(0, 6, "moved,") == 0) continue;
         if (t.compare(0, 7, "freeze=") == 0) {
             // z: forwarded, same measurement as the twin; Z: forwarded, another measurement; n: freeze returned false
             rs += t.compare(7, 4, "true") != 0 ? 'n' : (t.find("meas=same") != std::string::npos ? 'z' : 'Z');
@@ -336,8 +459,8 @@ static std::string compress(const std::vector<std::string>& trace) {
     return rs + "," + fl + "," + trace[trace.size() - 2] + "," + trace[trace.size() - 1];
 }
 
-template <typename Filter, typename Belief, typename Make>
-static void drive(const vf::Case& c, Make make, bool exo, const std::string& cfg) {
+template <typename Filter, typename Belief, typename Make, typename Remake>
+static void drive(const vf::Case& c, Make make, Remake remake, bool exo, const std::string& cfg) {
     bool inputs_kept = true;
     const unsigned long seed = static_cast<unsigned long>(c.integer("seed"));
     vf::out_begin(c.id);
@@ -355,11 +478,11 @@ static void drive(const vf::Case& c, Make make, bool exo, const std::string& cfg
             for (long i = ext - 1; i >= 0; i--) { idx[i] = r % a; r /= a; }
             for (long i = 0; i < ext; i++) ops.push_back(alpha[idx[i]]);
             ops.push_back("predict"); ops.push_back("correct");
-            res.push_back(compress(run_word<Filter, Belief>(c, make, exo, cfg, ops, seed + static_cast<unsigned long>(w), inputs_kept)));
+            res.push_back(compress(run_word<Filter, Belief>(c, make, remake, exo, cfg, ops, seed + static_cast<unsigned long>(w), inputs_kept)));
         }
         vf::out_word("enum", res);
     } else {
-        vf::out_word("trace", run_word<Filter, Belief>(c, make, exo, cfg, c.word("ops"), seed, inputs_kept));
+        vf::out_word("trace", run_word<Filter, Belief>(c, make, remake, exo, cfg, c.word("ops"), seed, inputs_kept));
     }
     vf::out_int("inputs_unchanged", inputs_kept ? 1 : 0);
     vf::out_end();
@@ -373,10 +496,12 @@ int main() {
         const std::string kind = c.kind;
         if (kind == "kf" || kind == "ukf" || kind == "ukfg") {
             auto make = [&](bool e) { return Setup(c, e).gaussian(kind); };
-            drive<GF, GaussianMixture>(c, make, exo, kind);
+            auto remake = [&](GF& old, int mode) { return Setup(c, exo).regaussian(old, kind, mode); };
+            drive<GF, GaussianMixture>(c, make, remake, exo, kind);
         } else {
             auto make = [&](bool e) { return Setup(c, e).particle(kind, np); };
-            drive<PF, ParticleSet>(c, make, exo, kind);
+            auto remake = [&](PF& old, int mode) { return Setup(c, exo).reparticle(old, kind, np, mode); };
+            drive<PF, ParticleSet>(c, make, remake, exo, kind);
         }
     }
     return 0;
